@@ -22,6 +22,9 @@ import (
 const c07Plain = `type Users { name: String age: Int email: String }`
 const c07Indexed = `type Users { name: String @index age: Int @index(direction: DESC) email: String @index(unique: true) }`
 
+// second variant: one composite unique index over (name, age) and a plain one on email
+const c07IndexedComposite = `type Users @index(unique: true, includes: [{field: "name"}, {field: "age", direction: DESC}]) { name: String age: Int email: String @index }`
+
 type c07Op struct {
 	Kind string // create | update | delete | delfilter
 	Doc  int    // which logical document (0..2)
@@ -165,7 +168,15 @@ func (s *c07Side) apply(ctx context.Context, o c07Op) error {
 // c07Run applies the history to both sides; ops that are not applicable in the current state (update of
 // a document that does not exist, second create of the same logical document) are skipped on both.
 func c07Run(t *testing.T, ctx context.Context, hist []c07Op) (problems []c07Problem) {
-	plain, idx := c07New(t, ctx, c07Plain), c07New(t, ctx, c07Indexed)
+	return c07RunVariant(t, ctx, hist, false)
+}
+
+func c07RunVariant(t *testing.T, ctx context.Context, hist []c07Op, composite bool) (problems []c07Problem) {
+	schema := c07Indexed
+	if composite {
+		schema = c07IndexedComposite
+	}
+	plain, idx := c07New(t, ctx, c07Plain), c07New(t, ctx, schema)
 	defer plain.db.Close()
 	defer idx.db.Close()
 	var hs []string
@@ -178,6 +189,7 @@ func c07Run(t *testing.T, ctx context.Context, hist []c07Op) (problems []c07Prob
 		mail any
 		live bool
 		name string
+		age  int64
 	}
 	model := map[int]*mstate{} // reference state for the unique admission rule
 	for step, o := range hist {
@@ -194,9 +206,15 @@ func c07Run(t *testing.T, ctx context.Context, hist []c07Op) (problems []c07Prob
 		}
 		// expected verdict of the unique index
 		wantReject := false
-		if (o.Kind == "create" || o.Kind == "update") && o.Mail != nil {
+		if o.Kind == "create" || o.Kind == "update" {
 			for d, other := range model {
-				if d != o.Doc && other.live && other.mail == o.Mail {
+				if d == o.Doc || !other.live {
+					continue
+				}
+				if !composite && o.Mail != nil && other.mail == o.Mail {
+					wantReject = true
+				}
+				if composite && other.name == o.Name && other.age == o.Age {
 					wantReject = true
 				}
 			}
@@ -209,10 +227,10 @@ func c07Run(t *testing.T, ctx context.Context, hist []c07Op) (problems []c07Prob
 		}
 		switch {
 		case wantReject && errIdx == nil:
-			problems = append(problems, c07Problem{h, step, fmt.Sprintf("unique index admitted %s although a live document holds that email", o), sawFilterDelete})
+			problems = append(problems, c07Problem{h, step, fmt.Sprintf("unique index admitted %s although a live document holds that unique value", o), sawFilterDelete})
 			return
 		case !wantReject && errIdx != nil:
-			problems = append(problems, c07Problem{h, step, fmt.Sprintf("indexed database rejected %s: %v (no live document holds that email)", o, errIdx), sawFilterDelete})
+			problems = append(problems, c07Problem{h, step, fmt.Sprintf("indexed database rejected %s: %v (no live document holds that unique value)", o, errIdx), sawFilterDelete})
 			return
 		}
 		if wantReject {
@@ -226,30 +244,24 @@ func c07Run(t *testing.T, ctx context.Context, hist []c07Op) (problems []c07Prob
 				// the indexed side never created it; give it the same id bookkeeping
 				idx.ids[o.Doc] = plain.ids[o.Doc]
 			case "update":
-				// revert the reference side to the previous field values
+				// the rejected update changed nothing: take it back on the reference side
 				prev := model[o.Doc]
 				id, _ := client.NewDocIDFromString(plain.ids[o.Doc])
 				doc, err := plain.col.Get(ctx, id, false)
 				if err == nil {
 					doc.Set("email", prev.mail)
 					doc.Set("name", prev.name)
+					doc.Set("age", prev.age)
 					plain.col.Update(ctx, doc)
-				}
-				// the age may differ now; keep both sides equal by applying the name/age part to the indexed side
-				id2, _ := client.NewDocIDFromString(idx.ids[o.Doc])
-				doc2, err := idx.col.Get(ctx, id2, false)
-				if err == nil {
-					doc2.Set("age", o.Age)
-					idx.col.Update(ctx, doc2)
 				}
 			}
 			continue
 		}
 		switch o.Kind {
 		case "create":
-			model[o.Doc] = &mstate{mail: o.Mail, live: true, name: o.Name}
+			model[o.Doc] = &mstate{mail: o.Mail, live: true, name: o.Name, age: o.Age}
 		case "update":
-			ms.mail, ms.name = o.Mail, o.Name
+			ms.mail, ms.name, ms.age = o.Mail, o.Name, o.Age
 		case "delete":
 			ms.live = false
 		case "delfilter":
@@ -346,6 +358,11 @@ func TestGovcC07Index(t *testing.T) {
 						continue
 					}
 					run([]c07Op{c0, c1, mid, c2})
+					if c1.Mail == nil && (c2.Mail == nil || full) {
+						// composite variant: unique (name, age)
+						cases++
+						problems = append(problems, c07RunVariant(t, ctx, []c07Op{c0, c1, mid, c2}, true)...)
+					}
 				}
 			}
 		}
